@@ -163,7 +163,15 @@ class Report:
 
 
 def load_known() -> list:
-    if not KNOWN.exists():
-        return []
-    with open(KNOWN) as f:
-        return json.load(f)["findings"]
+    """Entries of known_findings.json (plus per-property drafts in known_findings.d/, which are
+    merged into the single file by the maintainer of /verif)."""
+    out = []
+    if KNOWN.exists():
+        with open(KNOWN) as f:
+            out += json.load(f)["findings"]
+    d = ROOT / "known_findings.d"
+    if d.is_dir():
+        for p in sorted(d.glob("*.json")):
+            with open(p) as f:
+                out += json.load(f)["findings"]
+    return out
